@@ -1,7 +1,7 @@
 (* C12 - the statements pinned in Props/C12.v, in their final form (ring degree a power of two). *)
 From PV Require Import Base.MachineInt Model.C12Scratch Gen.C12TmpBytes_gen Model.C12Trees
   Proofs.C12Arena Proofs.C12Hal Proofs.C12Core Proofs.C12KeySwitch Proofs.C12More Proofs.C12Conv
-  Proofs.C12Ggsw Proofs.C12Tensor Proofs.C12KeyEnc Proofs.C12Helpers Proofs.C12Compressed Proofs.C12Cmux.
+  Proofs.C12Ggsw Proofs.C12Tensor Proofs.C12KeyEnc Proofs.C12Helpers Proofs.C12Compressed Proofs.C12Cmux Proofs.C12Bdd.
 Open Scope Z_scope.
 
 Lemma pow2_nonneg (n : Z) : pow2 n -> 0 <= n.
@@ -213,6 +213,22 @@ Lemma main_cmux_assign_neg (fam n : Z) (res a s : infos) :
   is_fam fam -> pow2 n -> 8 <= n -> wf_infos res -> wf_infos a -> wf_infos s -> i_n res = n -> i_base2k res = i_base2k s -> i_rank res = i_rank s ->
   run_takes (tree_cmux_assign_neg fam n res a s) (0, cmux_tmp_bytes fam n res a s) <> None.
 Proof. intros Hf Hp H8. apply suffices_cmux_assign_neg; auto using pow2_nonneg, pow2_ge8. Qed.
+
+Lemma main_bdd_2w_to_1w_multi_thread (fam n : Z) (res s key : infos) (bits threads state_size : Z) :
+  is_fam fam -> pow2 n -> 8 <= n -> wf_infos res -> wf_infos s -> wf_infos key -> i_n res = n -> i_base2k res = i_base2k s -> i_rank res = i_rank s ->
+  i_rank res = i_rank_in key -> 0 <= bits -> 0 <= threads -> 0 <= state_size ->
+  run_takes (tree_bdd_2w_to_1w_multi_thread fam n bits threads state_size res s key)
+            (0, execute_bdd_circuit_2w_to_1w_multi_thread_tmp_bytes fam n bits threads state_size res s key) <> None.
+Proof. intros Hf Hp H8. apply suffices_bdd_2w_to_1w_multi_thread; auto using pow2_nonneg, pow2_ge8. Qed.
+Lemma main_bdd_eval_level (fam n : Z) (res s : infos) (state_size nodes off : Z) :
+  is_fam fam -> pow2 n -> 8 <= n -> wf_infos res -> wf_infos s -> i_n res = n -> i_base2k res = i_base2k s -> i_rank res = i_rank s -> 0 <= state_size ->
+  off mod 64 = 0 ->
+  run_tree (tree_bdd_eval_level fam n state_size nodes res s) (off, execute_bdd_circuit_tmp_bytes fam n res state_size s) <> None.
+Proof. intros Hf Hp H8. apply suffices_bdd_eval_level; auto using pow2_nonneg, pow2_ge8. Qed.
+Lemma main_split_windows (len : Z) (k : nat) : 0 <= len -> len mod 64 = 0 -> forall off L ws r,
+  off mod 64 = 0 -> 0 <= L -> run_tree (rep k (Take len)) (off, L) = Some (ws, r) ->
+  Forall (fun w : window => fst w mod 64 = 0 /\ snd w = len) ws.
+Proof. exact (rep_take_windows len k). Qed.
 
 Lemma main_helper_keyswitch_glwe (fam n : Z) (ksk gin gout : infos) :
   is_fam fam -> pow2 n -> 8 <= n -> wf_infos ksk -> wf_infos gin -> wf_infos gout -> i_n ksk = n -> i_n gin = n -> i_rank gin = i_rank_in ksk ->
